@@ -6,6 +6,7 @@ CONSTANTS
   GuardTypedNil = TRUE
   CloseOnNilPayload = TRUE
   PooledBuffer = FALSE
+  UEOFIsEnd = FALSE
   MaxSeq = 4
   MaxContent = 4
   MaxChunks = 5
